@@ -1,5 +1,6 @@
 import XV.Lemmas.Assoc
 import XV.Model.Ledger
+import XV.Lemmas.LedgerInvMain
 /-!
 C04 — ledger main-chain integrity under forks, reorganisations and truncation.
 Theorems about the table-level ledger model `XV.Ledger` (which mirrors `ConfirmBlock`, `handleFork`, `Truncate`):
@@ -174,5 +175,127 @@ example :
     l1.tip = 1 ∧ l2.tip = 1 ∧ (confirm l1 2 0 []).2 = .succSide ∧ l3.tip = 3 ∧ (confirm l2 3 2 []).2 = .succSwitch ∧
     (lookup l3.B 1).map (·.inTrunk) = some false ∧ (lookup l3.B 2).map (·.inTrunk) = some true ∧
     lookup l3.ZH 1 = some 2 := by decide
+
+/-! ## The main-chain invariant `LedgerInv` (defined in `XV/Lemmas/LedgerInvDef.lean`)
+
+`LedgerInv l` states, for the stored tree: (a) `tree` parents stored / heights consecutive / root at height 0,
+(b) `tip` stored at `trunkHeight` (its path reaches the root: `ledgerInv_path`), (c) `trunk` flag ↔ on the path,
+(d) `zh_sound`/`zh_complete` height index = path blocks (`ledgerInv_zh`), (e) `next_path`/`next_none` next links,
+(f) `height_le`, (g) `zi`/`zi_nodup` branch tips = leaves, (h) `c_sound`/`c_total`/`c_trunk` confirmed table,
+`norepeat` no transaction repeated along a branch. `OnPath l b` is `Anc l b l.tip`; `onPath_iff_pathOf` identifies it
+with membership in the model's computed `pathOf l l.tip`. -/
+
+/-- the genesis ledger satisfies the invariant -/
+theorem genesis_inv (id : Nat) (txs : List Nat) : LedgerInv (genesis id txs) := genesis_ledgerInv id txs
+
+example : LedgerInv (genesis 7 [1, 2]) := genesis_inv 7 [1, 2]
+
+/-- **`confirm` preserves the invariant** for every input (refused, trunk extension, side attachment, trunk switch).
+`hfresh`: no transaction of the new block occurs in a block of the branch it is attached to; `hidC`: confirmed-table
+entries naming `id` (possible only as leftovers of a truncated block `id`) are transactions of the new block. Both
+hypotheses are decidable on concrete tables. -/
+theorem confirm_inv (l : L) (id pre : Nat) (txs : List (Nat × Bool)) (I : LedgerInv l)
+    (hfresh : ∀ t, t ∈ txs.map (·.1) → t ∉ branchTxs l pre)
+    (hidC : ∀ p, p ∈ l.C → p.2 = id → p.1 ∈ txs.map (·.1)) : LedgerInv (confirm l id pre txs).1 :=
+  confirm_ledgerInv_dec I id pre txs hfresh hidC
+
+/-- `confirm_inv` with the hypotheses phrased through the ancestor relation (weaker hypotheses, same conclusion) -/
+theorem confirm_inv_anc (l : L) (id pre : Nat) (txs : List (Nat × Bool)) (I : LedgerInv l)
+    (hfresh : ∀ a ha, Anc l a pre → lookup l.B a = some ha → ∀ t, t ∈ txs.map (·.1) → t ∉ ha.txs)
+    (hidC : ∀ t, lookup l.C t = some id → t ∈ txs.map (·.1)) : LedgerInv (confirm l id pre txs).1 :=
+  confirm_ledgerInv I id pre txs hfresh hidC
+
+-- non-vacuity: extension, side attachment and trunk switch in one history, each step through `confirm_inv`
+example :
+    let l0 := genesis 0 [0]
+    let l1 := (confirm l0 1 0 [(1, true)]).1
+    let l2 := (confirm l1 2 0 [(2, true), (5, false)]).1
+    let l3 := (confirm l2 3 2 [(3, true), (1, false)]).1
+    LedgerInv l3 ∧ (confirm l0 1 0 [(1, true)]).2 = .succ ∧ (confirm l1 2 0 [(2, true), (5, false)]).2 = .succSide ∧
+      (confirm l2 3 2 [(3, true), (1, false)]).2 = .succSwitch := by
+  refine ⟨?_, by decide, by decide, by decide⟩
+  have I0 := genesis_inv 0 [0]
+  have I1 := confirm_inv _ 1 0 [(1, true)] I0 (by decide) (by decide)
+  have I2 := confirm_inv _ 2 0 [(2, true), (5, false)] I1 (by decide) (by decide)
+  exact confirm_inv _ 3 2 [(3, true), (1, false)] I2 (by decide) (by decide)
+
+/-- the key lemma of the switch case: started on two stored blocks of equal height with fuel above that height,
+`handleFork` terminates and returns the height of their lowest common ancestor (its exact effect on the tables is
+`XV.Ledger.ForkSpec`) -/
+theorem handleFork_lca (l0 : L) (T : TreeInv l0) (fuel p q : Nat) (nh : Option Nat) (l : L) (pb qb : Hdr)
+    (sp : lookup l0.B p = some pb) (sq : lookup l0.B q = some qb) (heq : pb.height = qb.height) (hf : qb.height < fuel) :
+    ∃ l' s sb, handleFork l0 fuel p q nh l = some (l', sb.height) ∧ lookup l0.B s = some sb ∧ IsLCA l0 s p q ∧
+      ForkSpec l0 l l' p q nh s sb qb.height := by
+  obtain ⟨l', s, sb, h, S⟩ := handleFork_spec T fuel p q nh l pb qb sp sq heq hf
+  exact ⟨l', s, sb, h, S.s_stored, ⟨S.s_p, S.s_q, S.s_max⟩, S⟩
+
+-- non-vacuity: two siblings 1, 2 of the genesis block (equal height 1, fuel 3); the split height is 0
+example :
+    let l2 := (confirm (confirm (genesis 0 []) 1 0 []).1 2 0 []).1
+    (lookup l2.B 1).map (·.height) = some 1 ∧ (lookup l2.B 2).map (·.height) = some 1 ∧
+    (handleFork l2 3 1 2 none l2).map (·.2) = some 0 := by decide
+
+/-- under the invariant, the main chain is the computed path from the tip -/
+theorem onPath_iff_pathOf (l : L) (I : LedgerInv l) (b : Nat) : OnPath l b ↔ b ∈ pathOf l l.tip := I.onPath_iff b
+
+/-- (b) the computed path from the tip contains the root and has `trunkHeight + 1` blocks -/
+theorem ledgerInv_path (l : L) (I : LedgerInv l) :
+    l.root ∈ pathOf l l.tip ∧ (pathOf l l.tip).length = l.trunkHeight + 1 := I.pathOf_tip
+
+/-- (d) the height index: the path block of height `k` up to the trunk height, nothing above -/
+theorem ledgerInv_zh (l : L) (I : LedgerInv l) (k : Nat) :
+    (k ≤ l.trunkHeight → ∃ b h, lookup l.ZH k = some b ∧ lookup l.B b = some h ∧ h.height = k ∧ b ∈ pathOf l l.tip) ∧
+    (l.trunkHeight < k → lookup l.ZH k = none) := by
+  refine ⟨fun hk => ?_, fun hk => I.zh_none_above hk⟩
+  obtain ⟨b, h, h1, h2, h3, h4⟩ := I.zh_at hk
+  exact ⟨b, h, h1, h2, h3, (I.onPath_iff b).1 h4⟩
+
+example : (0 ≤ (genesis 7 [1]).trunkHeight → ∃ b h, lookup (genesis 7 [1]).ZH 0 = some b ∧
+    lookup (genesis 7 [1]).B b = some h ∧ h.height = 0 ∧ b ∈ pathOf (genesis 7 [1]) (genesis 7 [1]).tip) :=
+  (ledgerInv_zh _ (genesis_inv 7 [1]) 0).1
+
+/-- `IsTxInTrunk` answers exactly "some main-chain block contains the transaction" -/
+theorem isTxInTrunk_iff (l : L) (I : LedgerInv l) (t : Nat) :
+    isTxInTrunk l t = true ↔ ∃ b h, lookup l.B b = some h ∧ b ∈ pathOf l l.tip ∧ t ∈ h.txs := by
+  unfold isTxInTrunk
+  constructor
+  · intro h
+    cases hc : lookup l.C t with
+    | none => simp [hc] at h
+    | some b =>
+      cases hb : lookup l.B b with
+      | none => simp [hc, hb] at h
+      | some hd =>
+        simp only [hc, hb] at h
+        exact ⟨b, hd, hb, (I.onPath_iff b).1 ((I.trunk b hd hb).1 h), I.c_sound t b hd hc hb⟩
+  · rintro ⟨b, hd, hb, hp, ht⟩
+    have hp' := (I.onPath_iff b).2 hp
+    rw [I.c_trunk b hd t hb hp' ht]
+    simp only [hb]
+    exact (I.trunk b hd hb).2 hp'
+
+example : isTxInTrunk (genesis 7 [1, 2]) 2 = true := (isTxInTrunk_iff _ (genesis_inv 7 [1, 2]) 2).2
+  ⟨7, ⟨none, 0, true, none, [1, 2]⟩, by decide, by decide, by decide⟩
+
+/-- `FindUndoAndTodoBlocks` for stored `cur`, `dest`: with `s` their lowest common ancestor, `pathOf cur` is `undo`
+followed by `pathOf s` and `pathOf dest` is `todo` followed by `pathOf s` (so the lists are the ancestors strictly
+above `s`, newest first), membership is "ancestor of the one but not of the other", the lists share no block, and
+the last block of each has `s` as parent. -/
+theorem findUndoTodo_correct (l : L) (I : LedgerInv l) (cur dest : Nat) (hc hd : Hdr) (sc : lookup l.B cur = some hc)
+    (sd : lookup l.B dest = some hd) :
+    ∃ s, IsLCA l s cur dest ∧
+      pathOf l cur = (findUndoTodo l cur dest).1 ++ pathOf l s ∧
+      pathOf l dest = (findUndoTodo l cur dest).2 ++ pathOf l s ∧
+      (∀ x, x ∈ (findUndoTodo l cur dest).1 ↔ Anc l x cur ∧ ¬ Anc l x dest) ∧
+      (∀ x, x ∈ (findUndoTodo l cur dest).2 ↔ Anc l x dest ∧ ¬ Anc l x cur) ∧
+      (∀ x, x ∈ (findUndoTodo l cur dest).1 → x ∉ (findUndoTodo l cur dest).2) ∧
+      (∀ y, (findUndoTodo l cur dest).1.getLast? = some y → par l y = some s) ∧
+      (∀ y, (findUndoTodo l cur dest).2.getLast? = some y → par l y = some s) :=
+  findUndoTodo_spec I.tree sc sd
+
+-- non-vacuity: the siblings 1 and 2 are stored; undo = [1], todo = [2], common ancestor 0
+example :
+    let l2 := (confirm (confirm (genesis 0 []) 1 0 []).1 2 0 []).1
+    (lookup l2.B 1).isSome = true ∧ (lookup l2.B 2).isSome = true ∧ findUndoTodo l2 1 2 = ([1], [2]) := by decide
 
 end XV.C04
